@@ -316,6 +316,51 @@ func (e *Engine) loopFrameInfo(li *loopInfo) *loopFrame {
 					}
 				}
 			case *ssa.Alloc, *ssa.MakeInterface, *ssa.MakeSlice, *ssa.MakeMap, *ssa.DebugRef:
+			case *ssa.Call:
+				// calls to dependency models that say through which pointers they write
+				var em *extModel
+				if f := x.Common().StaticCallee(); f != nil && !x.Common().IsInvoke() {
+					em = e.extModel(f)
+				}
+				if em == nil || em.targets == nil {
+					tmp := newModSet()
+					e.instrMods(in, tmp, li.inLoop)
+					for k, ki := range tmp.Keys {
+						if !ki.FreshOnly {
+							lf.dirty[k] = true
+						}
+					}
+					if tmp.All {
+						lf.dirty["*"] = true
+					}
+					continue
+				}
+				tmp := newModSet()
+				em.mods(tmp, x.Common())
+				tg := em.targets(x.Common())
+				for k, ki := range tmp.Keys {
+					if ki.Ghost != "" || ki.Dims != 1 {
+						if ki.Ghost == "" && !ki.FreshOnly {
+							lf.dirty[k] = true
+						}
+						continue
+					}
+					for _, t := range tg {
+						root, direct := storeRoot(t)
+						rin, isInstr := root.(ssa.Instruction)
+						inLoop := isInstr && li.inLoop[rin.Block()]
+						_, isAlloc := root.(*ssa.Alloc)
+						switch {
+						case !direct:
+							lf.dirty[k] = true
+						case inLoop && isAlloc:
+						case !inLoop:
+							lf.targets[k] = append(lf.targets[k], root)
+						default:
+							lf.dirty[k] = true
+						}
+					}
+				}
 			default:
 				tmp := newModSet()
 				e.instrMods(in, tmp, li.inLoop)
